@@ -681,9 +681,15 @@ func (rd *c11sRound) sameSessionServed(event string, st *c11sStaller) bool {
 	if ended, _ := host.ReadEnded(); ended {
 		return true // judged by the round's own oracle (uninvolved-peer-disconnected) where it applies
 	}
-	nf, ok := c11sRouteProbe(host, []string{st.vc.ID}, fmt.Sprintf("nobody-progress-%s-%d", st.vc.ID, rd.probeSeq.Add(1)))
+	nf, ok, sent := c11sRouteProbeSent(host, []string{st.vc.ID}, fmt.Sprintf("nobody-progress-%s-%d", st.vc.ID, rd.probeSeq.Add(1)))
 	if !ok {
 		if ended, _ := host.ReadEnded(); ended || !rd.srv.Alive() {
+			return true
+		}
+		if !sent {
+			// the probe could not even be written: the sender's connection is over (e.g. its session expired a moment ago and the
+			// client's reader has not seen the end yet) - not an unanswered probe
+			rd.agg.count("sender_probe_not_written_connection_over", 1)
 			return true
 		}
 		// the canary was served a moment ago; confirm that it still is, so that the machine is not the reason
